@@ -1,0 +1,47 @@
+//go:build verif
+
+package impl
+
+// Contracts for the deductive checker in /verif (comment-only; compiled only under the verif tag).
+//
+// Points P are elements of an abstract abelian group ("group"); gsmulI(k, x) is the k-fold sum of x
+// (theory "multiples": gsmulI(0,x) = 0, gsmulI(a,x) + gsmulI(b,x) = gsmulI(a+b,x), gsmulI(a,x) + x = gsmulI(a+1,x),
+// x + x = gsmulI(2,x)), so the postcondition holds in every group the generic code is instantiated with.
+// leval(s, i) = sum_{t >= i} s[t] * 256^(t-i): the little-endian integer denoted by s[i:].
+
+//@ ghost func gsmulI(k Int, x V) V
+//@ ghost func leval(s []byte, i Int) Int
+//@ theory multiples
+//@ axiom MulZero: forall x V :: gsmulI(0, x) == gzero()
+//@ axiom MulAdd: forall a, b Int, x V :: gadd(gsmulI(a, x), gsmulI(b, x)) == gsmulI(a + b, x)
+//@ axiom MulSucc: forall a Int, x V :: gadd(gsmulI(a, x), x) == gsmulI(a + 1, x)
+//@ axiom MulOne: forall x V :: gsmulI(1, x) == x
+//@ end
+//@ theory leval
+//@ axiom LevalEnd: forall s []byte :: leval(s, len(s)) == 0
+//@ axiom LevalStep: forall s []byte, i Int :: 0 <= i && i < len(s) ==> leval(s, i) == s[i] + 256 * leval(s, i + 1)
+//@ end
+
+//@ func ScalarMulLowLevel
+//@   property C14
+//@   bind PP groupptr, P group
+//@   uses multiples leval
+//@   nopanic
+//@   ensures *out == gsmulI(leval(s, 0), old(*pp))
+//@   loop for(i < 16)
+//@     invariant 2 <= i && i <= 16 && i % 2 == 0 && len(precomputed) == 16
+//@     invariant forall j int :: 0 <= j && j < i ==> precomputed[j] == gsmulI(j, *pp)
+//@     invariant *pp == old(*pp)
+//@   loop for(i >= 0)
+//@     invariant -1 <= i && i < len(s) && len(precomputed) == 16
+//@     invariant forall j int :: 0 <= j && j < 16 ==> precomputed[j] == gsmulI(j, *pp)
+//@     invariant res == gsmulI(leval(s, i + 1), *pp)
+//@     invariant *pp == old(*pp)
+
+// MultiScalarMulLowLevel panics on malformed input; its callers must rule that out. (The functional
+// postcondition of the Pippenger branch is not under contract: the window extraction is a closure.)
+//@ func MultiScalarMulLowLevel
+//@   property C14
+//@   bind PP groupptr, P group
+//@   nopanic explicit
+//@   requires len(points) == len(scalars)
